@@ -127,8 +127,10 @@ func runCheck(repo, verif, prop, tier string, workers int, noReplay bool) int {
 	for _, r := range runs {
 		cfg := &interp.Config{SolverTimeoutMs: 5000, MaxSteps: 30_000_000, ConcCap: 64, Workers: workers,
 			Params: r.Params, Sched: r.Sched, Preempt: r.Preempt, Race: r.Race, Known: knownIDs, Tier: tier}
+		cfg.MaxWall = 12 * time.Minute
 		if tier == "thorough" {
 			cfg.SolverTimeoutMs = 30000
+			cfg.MaxWall = 90 * time.Minute
 		}
 		if r.SolverMs > 0 {
 			cfg.SolverTimeoutMs = r.SolverMs
@@ -158,6 +160,11 @@ func runCheck(repo, verif, prop, tier string, workers int, noReplay bool) int {
 		for k, n := range res.EngineErrs {
 			fmt.Printf("ENGINE-ERROR property=%s harness=%s x%d: %s\n", prop, r.Fn, n, k)
 			problems = append(problems, "engine error: "+k)
+			status = 3
+		}
+		if res.Truncated && len(res.Violations) == 0 {
+			fmt.Printf("INCONCLUSIVE property=%s harness=%s: exploration truncated: %s\n", prop, r.Fn, res.TruncatedWhy)
+			problems = append(problems, "truncated: "+res.TruncatedWhy)
 			status = 3
 		}
 		if res.Completed == 0 {
